@@ -172,11 +172,11 @@ end FDA.Generated.CsvRule
 
 import c14_translate  # noqa: E402
 
-GEN_FORMULAS = os.path.join(common.LEAN_DIR, "FDAModel", "Generated", "BasisFormulas.lean")
+GEN_FORMULAS = os.path.join(common.LEAN_DIR, "FDAModel", "Generated", "CoefSpaceFormulas.lean")
 
 
 def _translate_formulas():
-    """Generated/BasisFormulas.lean from the coefficient-space methods of BasisFunctionalData; an unrecognised shape is
+    """Generated/CoefSpaceFormulas.lean from the coefficient-space methods of BasisFunctionalData; an unrecognised shape is
     not an alarm: the reference translation kept beside the translator is used and the evidence says so."""
     path = os.path.join(common.REPO, "FDApy", "representation", "functional_data.py")
     try:
